@@ -10,6 +10,8 @@ independent first-principles references (braxlint/refkin.py):
   R2.2 bias force   == projection of Newton-Euler (velocity-product accelerations, gyroscopic term,
                       -gravity) onto the joint-space Jacobians -- Coriolis + centrifugal + gravity;
   R2.3 passive      == -stiffness*q - damping*qd on non-free dofs; smooth force = passive - bias + tau;
+  R2.5 scan         the tree / link-type regrouping the recursions run through is specified for every forest of
+                      <= 5 (thorough: 6) links (shared with C01 R1.2).
   R2.4 step         == semi-implicit Euler with implicit joint damping: qdd = (M + dt diag(d))^-1 f,
                       qd' = qd + dt qdd, q' = q + dt qd' (free joints: quaternion integrated with the
                       body-frame angular velocity), when no contact or limit is met.
@@ -173,6 +175,10 @@ def one(U, links, seed):
 
 
 def run(U, rep, tier):
+  # R2.5: the recursions (composite rigid body, Newton-Euler) run through scan.tree / scan.link_types; their regrouping
+  # is specified for EVERY forest of <= 5 (6) links (shared with C01 R1.2) -- the topologies below are instances
+  from braxlint.props import c01
+  c01.scan_spec(U, rep, tier, rule='R2.5')
   f = U.func('brax.generalized.pipeline.step')
   s0 = int(os.environ.get('VERIF_SEED', '0') or 0)
   seeds = [s0 * 1000 + t for t in range(2 if tier == 'quick' else 5)]
